@@ -24,6 +24,7 @@ STR, STRLIST, DICT = "string", "(list string)", "(list (string * Q))"
 YVAL, YLIST = "Y", "(list Y)"      # the first entry of a timeslice (what Corr.fit hands to least_squares), abstract
 SCAL = "S"      # a scalar operand of a correlator operation (number or observable; abstract)
 ELT, OPTELT, CONTENT = "E", "(option E)", "(list (option E))"      # timeslice entries of a correlator (abstract element type E)
+WVEC, OPTW, OPTWLIST = "W", "(option W)", "(list (option W))"      # projection vectors of Corr.projected (abstract), one per timeslice or None
 VEC, VECLIST, MATX, PERMLIST = "V", "(list V)", "M", "(list (list Z))"      # eigenvectors / reference matrix of _sort_vectors (abstract)
 OPTSTR, OPTSTRLIST = "(option string)", "(list (option string))"      # names that may fail to be strings (None = some other object)
 INTMAT = "(list (list Z))"      # a two-dimensional integer array (rows)
@@ -144,6 +145,38 @@ class Fn:
             raise TranslateError("%s: list display of %s" % (self.name, [ty for _, ty in ts]))
         if isinstance(node, ast.ListComp):
             return self.listcomp(node, env, binds)
+        if isinstance(node, ast.IfExp) and isinstance(node.body, ast.Constant) and node.body.value is None:
+            # None if c else e: the condition first; e is evaluated (and may raise) only when the condition is false
+            c, tc = self.expr(node.test, env, binds)
+            if tc != BOOL:
+                raise TranslateError("%s: condition of type %s" % (self.name, tc))
+            be = []
+            e, te = self.expr(node.orelse, env, be)
+            out = {WVEC: OPTW, ELT: OPTELT}.get(te)
+            if out is None:
+                raise TranslateError("%s: `None if .. else` producing %s" % (self.name, te))
+            r = self.fresh()
+            binds.append((r, "(if %s then Ok None else %s)" % (c, self.seq(be, "(Ok (Some %s))" % e))))
+            return r, out
+        if isinstance(node, ast.Call) and isinstance(node.func, ast.Name) and node.func.id == "vnorm__" and len(node.args) == 1 and not node.keywords:
+            # v / np.sqrt(v @ v), renamed by the fragment selector: arithmetic on None raises TypeError
+            a, ta = self.expr(node.args[0], env, binds)
+            if ta != OPTW:
+                raise TranslateError("%s: normalisation of %s" % (self.name, ta))
+            r = self.fresh()
+            binds.append((r, "py_eun vnorm %s" % a))
+            return r, WVEC
+        if isinstance(node, ast.Call) and isinstance(node.func, ast.Name) and node.func.id == "sandwich__" and len(node.args) == 3 and not node.keywords:
+            # np.asarray([l.T @ G @ r]), renamed by the fragment selector; operands evaluated left to right, None raises
+            args = [self.expr(a, env, binds) for a in node.args]
+            if [ty for _, ty in args] != [OPTW, OPTELT, OPTW]:
+                raise TranslateError("%s: projection of %s" % (self.name, [ty for _, ty in args]))
+            names = []
+            for a, _ in args:
+                r = self.fresh()
+                binds.append((r, "py_eun (fun x_ => x_) %s" % a))
+                names.append(r)
+            return "(sandwich %s %s %s)" % tuple(names), ELT
         if isinstance(node, ast.Call):
             return self.call(node, env, binds)
         raise TranslateError("%s: unsupported expression %s" % (self.name, type(node).__name__))
@@ -248,7 +281,7 @@ class Fn:
             return "(isr %s)" % t, BOOL
         if op in (ast.Is, ast.IsNot) and isinstance(right, ast.Constant) and right.value is None:
             a, ta = self.expr(left, env, binds)
-            if ta != OPTELT:
+            if ta not in (OPTELT, OPTW):
                 raise TranslateError("%s: `is None` on %s" % (self.name, ta))
             return ("(is_none %s)" if op is ast.Is else "(negb (is_none %s))") % a, BOOL
         a, ta = self.expr(left, env, binds)
@@ -360,7 +393,7 @@ class Fn:
             return r, ARR
         if ti != INT:
             raise TranslateError("%s: index of type %s" % (self.name, ti))
-        elt = {IDL: INT, ARR: FLOAT, INTLIST: INT, IDLLIST: IDL, CONTENT: OPTELT, VECLIST: VEC, OPTSTRLIST: OPTSTR}.get(ty)
+        elt = {IDL: INT, ARR: FLOAT, INTLIST: INT, IDLLIST: IDL, CONTENT: OPTELT, VECLIST: VEC, OPTSTRLIST: OPTSTR, OPTWLIST: OPTW}.get(ty)
         if elt is None:
             raise TranslateError("%s: subscript of %s" % (self.name, ty))
         seq = "(cfgs %s)" % t if ty == IDL else t
@@ -415,7 +448,7 @@ class Fn:
         env2[x] = tx
         b = []
         body, tb = self.expr(node.elt, env2, b)
-        out = {FLOAT: ARR, INT: INTLIST, BOOL: BOOLLIST, VEC: VECLIST, ARR: MAT2, STR: STRLIST}.get(tb)
+        out = {FLOAT: ARR, INT: INTLIST, BOOL: BOOLLIST, VEC: VECLIST, ARR: MAT2, STR: STRLIST, OPTW: OPTWLIST, OPTELT: CONTENT}.get(tb)
         if out is None:
             raise TranslateError("%s: list comprehension producing %s" % (self.name, tb))
         r = self.fresh()
@@ -447,6 +480,8 @@ class Fn:
             return t, STR
         if ty == CONTENT:
             return t, OPTELT
+        if ty == OPTWLIST:
+            return t, OPTW
         if ty == OPTSTRLIST:
             return t, OPTSTR
         if ty == PERMLIST:
@@ -1516,6 +1551,39 @@ def frag_plateau_avg(fn):
     return hits[0].body
 
 
+class _RewriteProjection(ast.NodeTransformer):
+    """v / np.sqrt(v @ v) -> vnorm__(v);  np.asarray([a.T @ G @ b]) -> sandwich__(a, G, b).  Anything else with `@` stays and is refused later."""
+    def visit_BinOp(self, node):
+        if isinstance(node.op, ast.Div) and isinstance(node.left, ast.Name):
+            want = ast.parse("%s / np.sqrt(%s @ %s)" % ((node.left.id,) * 3), mode="eval").body
+            if _d(node) == _d(want):
+                return ast.Call(func=ast.Name(id="vnorm__", ctx=ast.Load()), args=[node.left], keywords=[])
+        return self.generic_visit(node)
+
+    def visit_Call(self, node):
+        if _d(node.func) == _d(ast.parse("np.asarray", mode="eval").body) and len(node.args) == 1 and not node.keywords \
+                and isinstance(node.args[0], ast.List) and len(node.args[0].elts) == 1:
+            e = node.args[0].elts[0]
+            if isinstance(e, ast.BinOp) and isinstance(e.op, ast.MatMult) and isinstance(e.left, ast.BinOp) and isinstance(e.left.op, ast.MatMult) \
+                    and isinstance(e.left.left, ast.Attribute) and e.left.left.attr == "T":
+                return ast.Call(func=ast.Name(id="sandwich__", ctx=ast.Load()), args=[e.left.left.value, e.left.right, e.right], keywords=[])
+        return self.generic_visit(node)
+
+
+def frag_projected_lists(fn):
+    """Corr.projected: the branch for one vector pair per timeslice (the `else:` of `if not isinstance(vector_l, list):`), up to the new content."""
+    import copy
+    want = _d(ast.parse("not isinstance(vector_l, list)", mode="eval").body)
+    hits = [st for st in fn.body if isinstance(st, ast.If) and _d(st.test) == want]
+    if len(hits) != 1 or not hits[0].orelse:
+        raise TranslateError("Corr.projected: the branch for vector lists was not found exactly once")
+    last = fn.body[-1]
+    if not (isinstance(last, ast.Return) and _d(last.value) == _d(ast.parse("Corr(newcontent)", mode="eval").body) and fn.body[-2] is hits[0]):
+        raise TranslateError("Corr.projected: the method does not end with the two branches followed by `return Corr(newcontent)`")
+    body = [_RewriteProjection().visit(copy.deepcopy(st)) for st in hits[0].orelse]
+    return [ast.fix_missing_locations(st) for st in body] + [ast.Return(value=ast.Name(id="newcontent", ctx=ast.Load()))]
+
+
 def frag_corr_scalar_branch(fn):
     """The body of the `elif isinstance(y, (Obs, int, float, CObs, complex)):` branch of a binary operator of Corr."""
     first = [st for st in fn.body if not (isinstance(st, ast.Expr) and isinstance(st.value, ast.Constant))][0]
@@ -1572,6 +1640,11 @@ CORR_SIGS = [
     dict(coq="corr_mul_corr", py="Corr.__mul__", fragment=frag_corr_corr_branch, params=[], ret=CONTENT,
          extra_params=[("v_content", CONTENT), ("v_N", INT), ("v_ycontent", CONTENT), ("v_yN", INT)], aliases=_CORR_ALIASES, hints={"newcontent": CONTENT}, **_CORR),
 ]
+PROJ_SIGS = [
+    dict(coq="corr_projected_lists", py="Corr.projected", fragment=frag_projected_lists, params=[], ret=CONTENT, file="correlators.py", section="proj",
+         extra_params=[("v_content", CONTENT), ("v_vector_l", OPTWLIST), ("v_vector_r", OPTWLIST), ("v_normalize", BOOL)],
+         env={"vector_l": OPTWLIST, "vector_r": OPTWLIST, "normalize": BOOL}, aliases=_CORR_ALIASES),
+]
 SORT_SIGS = [
     dict(coq="sort_vectors_branch", py="_sort_vectors", fragment=frag_sort_branch, params=[], ret=VECLIST, file="correlators.py", section="sortvec",
          extra_params=[("v_N", INT), ("v_ref", MATX), ("v_vec", VECLIST), ("v_vec_in", VECLIST)], env={"N": INT},
@@ -1580,6 +1653,7 @@ SORT_SIGS = [
 ]
 SECTION_HEADERS = {
     "sortvec": ["Section SortVec.", "Variables V M : Type.", "Variable rowset : M -> Z -> V -> M.", "Variable absdet : M -> Q."],
+    "proj": ["Section ProjOps.", "Variables E W : Type.", "Variable vnorm : W -> W.", "Variable sandwich : W -> E -> W -> E."],
     "corr": ["Section CorrOps.", "Variables E S : Type.", "Variables eadd esub emul ediv : E -> E -> E.", "Variable escale : Q -> E -> E.",
              "Variables eaddS emulS edivS : E -> S -> E.", "Variable Y : Type.", "Variable efirst : E -> Y.", "Variable ymean : list Y -> Y."],
 }
@@ -1591,7 +1665,7 @@ def translate_source(src, sigs=None, only=None, sources=None):
     trees = {"obs.py": tree}
     for fn_, tx_ in (sources or {}).items():
         trees[fn_] = ast.parse(tx_)
-    sigs = sigs or (SIGS + CORR_SIGS + SORT_SIGS)
+    sigs = sigs or (SIGS + CORR_SIGS + SORT_SIGS + PROJ_SIGS)
 
     out = ["(* GENERATED by translate/t_pycore.py from pyerrors/obs.py -- do not edit *)",
            "From Coq Require Import ZArith QArith Qabs List Bool.",
